@@ -143,7 +143,15 @@ def change_selftest(prop):
             elif kind == "seeded":
                 out["seeded"].append({"change": ident, "status": r["status"] if fired is None else ("reported" if fired else "NOT REPORTED"), "rules": sorted({x.split(":")[0] for x in fired}) if fired else []})
             else:
-                out["refactorings"].append({"refactoring": ident, "status": r["status"] if fired is None else ("FALSE ALARM" if fired else "silent"), "rules": fired or []})
+                status = r["status"] if fired is None else ("FALSE ALARM" if fired else "silent")
+                if status == "FALSE ALARM" and kind == "benign_seeded":
+                    try:
+                        rec = json.load(open(os.path.join(runner.VERIF, "benign_seeded", ident, "meta.json"))).get("false_alarms_now") or {}
+                    except (OSError, ValueError):
+                        rec = {}
+                    if prop in rec:
+                        status = "FALSE ALARM (recorded residual, DESIGN.md Appendix D.2)"
+                out["refactorings"].append({"refactoring": ident, "status": status, "rules": fired or []})
     return out
 
 
